@@ -487,3 +487,16 @@ add({"name": "make_name", "file": "dfs/cmd_extract_unused.cc",
                (r"ss << dest_dir", "ss << CSTR(dest_dir)", 1),
                ("OSTREAM_CHAIN", "ss", 1),
                (r"return ss\.str\(\);", "return;  /* the assembled string is the sequence of events */", 1)]})
+
+# ---- main.cc (C11 dfs half): the command-invocation tail of main ---------------------------------------------------
+add({"name": "dfs_main_tail", "file": "dfs/main.cc",
+     "anchor": r"if \(show_config\)\s*\{\s*storage\.show_drive_configuration\(std::cerr\);",
+     "region_end": r"\}\s*catch \(std::exception& e\)",
+     "sig": "static int dfs_main_tail(bool show_config)",
+     "pre": "#define cout_ (&cout_obj)\n", "post": "#undef cout_\n",
+     "rules": [(r"storage\.show_drive_configuration\(std::cerr\);", "g_cfg_shown++;  /* --show-config goes to standard error */", 1),
+               (r"instance->invoke\(storage, ctx, extra_args\)", "command_invoke(cout_)", 1),
+               (r"std::cout\.flush\(\);", "os_flush(cout_);", 1),
+               (r"if \(!std::cout\)", "if (cout_->bad)", 1),
+               (r'std::cerr << "error: failed to write to standard output\\n";', "g_diag++;", 1)],
+     "dropped": ["diagnostic text"]})
